@@ -185,11 +185,13 @@ SSpec == SInit /\ [][SNext]_allvars
 (***************************************************************************)
 (* Invariants                                                              *)
 (***************************************************************************)
+\* (a state that only records "this history has been printed" repeats its predecessor: nothing to re-check)
+Printed == hist # <<>> /\ hist[Len(hist)].ev = "emitted"
 \* allowed is, by definition, the conjunction of everything accepted
 AllowedIsConjunction ==
-  \A i \in DOMAIN mgrs : mgrs[i].allowed = { a \in Assigns : \A j \in DOMAIN mgrs[i].posted : Satisfies(mgrs[i].posted[j], a) }
+  Printed \/ \A i \in DOMAIN mgrs : mgrs[i].allowed = { a \in Assigns : \A j \in DOMAIN mgrs[i].posted : Satisfies(mgrs[i].posted[j], a) }
 \* C07 at design level: the specified CNF projects onto the user variables exactly as `allowed`
-Exact == \A i \in DOMAIN mgrs : Proj(mgrs[i].cnf) = mgrs[i].allowed
+Exact == Printed \/ \A i \in DOMAIN mgrs : Proj(mgrs[i].cnf) = mgrs[i].allowed
 \* refused only when refusable, and an accepted constraint really restricts the manager
 NeverDropped == lastm > 0 => IF lastref THEN Refusable(lastc) ELSE mgrs[lastm].allowed \subseteq SatSet(lastc)
 \* the shared store stays canonical and the last diagram computes its inequality, whatever was built before
